@@ -361,48 +361,39 @@ func opAcceptance(ctx *Ctx, c c05Case, rr *RunRes, names, ins, src []string) {
 	for i, nm := range names {
 		idx[nm] = i
 	}
-	// port name -> upstream index, per process; connections are identified by the pair of processes
-	portUp := map[string]map[string]int{}
+	// port name -> position of the in-port in the model's `ins` (netEncode: file in-ports first, then the parameter port)
+	portIdx := map[string]map[string]int{}
 	nIn := map[string]int{}
 	for _, n := range c.Dag.Nodes {
 		if n.Kind != "proc" {
 			continue
 		}
 		m := map[string]int{}
-		seen := map[int]bool{}
-		for i, u := range n.Ins {
-			u = baseName(u)
-			m[fmt.Sprintf("in%d", i)] = idx[u]
-			if seen[idx[u]] {
-				ctx.Res.Count("channel-ops=multi-edge(not in the model)")
-				return
-			}
-			seen[idx[u]] = true
+		for i := range n.Ins {
+			m[fmt.Sprintf("in%d", i)] = i
 		}
-		if n.PIn == "@" {
-			m["p"] = idx[n.Name+"@feeder"]
-		} else if n.PIn != "" {
-			m["p"] = idx[n.PIn]
+		if n.PIn != "" {
+			m["p"] = len(n.Ins)
 		}
-		portUp[n.Name] = m
+		portIdx[n.Name] = m
 		nIn[n.Name] = len(m)
 	}
-	outs := map[int][]int{} // consumers per node
-	for w, l := range ins {
+	nconn := map[int]int{} // connections fed by each node
+	for _, l := range ins {
 		if l == "-" {
 			continue
 		}
 		for _, u := range strings.Split(l, ",") {
 			var ui int
 			fmt.Sscan(u, &ui)
-			outs[ui] = append(outs[ui], w)
+			nconn[ui]++
 		}
 	}
 	reader := map[string][]string{} // per process: recv ..., create, ...
 	fwd := map[string][]string{}    // per process / source: send ..., forward, ...
 	round := map[string]int{}
 	open := map[string]bool{}   // a dequeued task whose outputs are being sent
-	sentTo := map[string]map[int]bool{}
+	sentTo := map[string]map[string]bool{}
 	procOf := func(port string) string {
 		if i := strings.LastIndex(port, "."); i >= 0 {
 			return port[:i]
@@ -413,15 +404,15 @@ func opAcceptance(ctx *Ctx, c c05Case, rr *RunRes, names, ins, src []string) {
 		switch e.Point {
 		case "ch.recv":
 			v := e.Args[0]
-			m, ok := portUp[v]
+			m, ok := portIdx[v]
 			if !ok {
 				continue // sink, components outside the model
 			}
-			u, ok := m[e.Args[1]]
+			pi, ok := m[e.Args[1]]
 			if !ok {
 				continue
 			}
-			reader[v] = append(reader[v], fmt.Sprintf("r:%d:%d", idx[v], u))
+			reader[v] = append(reader[v], fmt.Sprintf("r:%d:%d", idx[v], pi))
 			round[v]++
 			if round[v] == nIn[v] {
 				reader[v] = append(reader[v], fmt.Sprintf("c:%d", idx[v]))
@@ -448,22 +439,25 @@ func opAcceptance(ctx *Ctx, c c05Case, rr *RunRes, names, ins, src []string) {
 				v += "@feeder"
 			}
 			vi, ok := idx[v]
-			wi, ok2 := idx[procOf(rp)]
-			if !ok || !ok2 {
+			w := procOf(rp)
+			wi, ok2 := idx[w]
+			pi, ok3 := portIdx[w][strings.TrimPrefix(rp, w+".")]
+			if !ok || !ok2 || !ok3 {
 				continue // to the sink, or from a component outside the model
 			}
+			conn := fmt.Sprintf("%d:%d", wi, pi)
 			if nd := c.Dag.node(v); nd == nil || nd.Kind != "proc" {
-				// a source: every item is created, sent to each consumer, forwarded
-				if sentTo[v] == nil || sentTo[v][wi] || len(sentTo[v]) == len(outs[vi]) {
+				// a source: every item is created, sent on each connection, forwarded
+				if sentTo[v] == nil || sentTo[v][conn] || len(sentTo[v]) == nconn[vi] {
 					if sentTo[v] != nil {
 						fwd[v] = append(fwd[v], fmt.Sprintf("f:%d", vi))
 					}
-					sentTo[v] = map[int]bool{}
+					sentTo[v] = map[string]bool{}
 					fwd[v] = append(fwd[v], fmt.Sprintf("c:%d", vi))
 				}
-				sentTo[v][wi] = true
+				sentTo[v][conn] = true
 			}
-			fwd[v] = append(fwd[v], fmt.Sprintf("s:%d:%d", vi, wi))
+			fwd[v] = append(fwd[v], "s:"+conn)
 		}
 	}
 	threads := []string{}
@@ -479,7 +473,7 @@ func opAcceptance(ctx *Ctx, c c05Case, rr *RunRes, names, ins, src []string) {
 		// sources
 		if sentTo[nm] != nil {
 			fwd[nm] = append(fwd[nm], fmt.Sprintf("f:%d", i))
-		} else if len(outs[i]) == 0 {
+		} else if nconn[i] == 0 {
 			var k int
 			fmt.Sscan(src[i], &k)
 			for j := 0; j < k; j++ {
